@@ -24,6 +24,29 @@ fn open_with_ident(id: &Option<Ident>) -> usize {
     sys::fd_census().values().filter(|(i, _)| Some(i) == id.as_ref()).count()
 }
 
+/// A descriptor to hand over as a ring's kick / call / error descriptor: mostly an eventfd, sometimes
+/// something a peer is just as free to send - either end of a pipe (one of them cannot be read from, the
+/// other cannot be written to) or one end of a socket pair. The other end goes to `held`.
+fn some_descriptor(rng: &mut Rng, held: &mut Vec<std::fs::File>) -> (EventFd, &'static str) {
+    use std::os::unix::io::{FromRawFd, IntoRawFd};
+    match rng.below(8) {
+        0 | 1 => {
+            let mut p = [0i32; 2];
+            assert_eq!(unsafe { libc::pipe2(p.as_mut_ptr(), libc::O_CLOEXEC | libc::O_NONBLOCK) }, 0);
+            let write_end = rng.chance(1, 2);
+            let (give, keep) = if write_end { (p[1], p[0]) } else { (p[0], p[1]) };
+            held.push(unsafe { std::fs::File::from_raw_fd(keep) });
+            (unsafe { EventFd::from_raw_fd(give) }, if write_end { "pipe-write-end" } else { "pipe-read-end" })
+        }
+        2 => {
+            let (a, b) = sys::pair();
+            held.push(unsafe { std::fs::File::from_raw_fd(b.into_raw_fd()) });
+            (unsafe { EventFd::from_raw_fd(a.into_raw_fd()) }, "socket")
+        }
+        _ => (EventFd::new(libc::EFD_NONBLOCK).expect("eventfd"), "eventfd"),
+    }
+}
+
 fn scenario(cfg: &Cfg, rng: &mut Rng, case: &str) {
     let before = sys::fd_census();
     let threads_before: Vec<i32> = sys::threads().iter().map(|t| t.0).collect();
@@ -42,15 +65,17 @@ fn scenario(cfg: &Cfg, rng: &mut Rng, case: &str) {
                 return;
             }
             let mut cur_kick: Vec<Option<EventFd>> = (0..nworkers).map(|_| None).collect();
+            // the harness-side ends of pipes and socket pairs handed over as ring descriptors
+            let mut held: Vec<std::fs::File> = Vec::new();
             let reg = Reg::new(0x10_0000, 0x4000, 0x7000_0000, 0);
             for _ in 0..rng.range(3, 25) {
                 let q = rng.below(nworkers as u64) as usize;
                 match rng.below(10) {
                     0 | 1 => {
-                        let e = EventFd::new(libc::EFD_NONBLOCK).expect("eventfd");
+                        let (e, kind) = some_descriptor(rng, &mut held);
                         let old = cur_kick[q].take();
                         if fe.set_vring_kick(q, &e).is_ok() {
-                            trace.push(format!("SET_VRING_KICK({q})"));
+                            trace.push(format!("SET_VRING_KICK({q},{kind})"));
                             // the replaced descriptor must have been closed by the daemon: only our copy is left
                             if let Some(o) = old {
                                 let id = sys::ident(o.as_raw_fd());
@@ -60,18 +85,22 @@ fn scenario(cfg: &Cfg, rng: &mut Rng, case: &str) {
                                     return;
                                 }
                             }
-                            cur_kick[q] = Some(e);
+                            // (the identity check above counts descriptors of one open file: only an
+                            // eventfd has a single harness-side descriptor)
+                            if kind == "eventfd" {
+                                cur_kick[q] = Some(e);
+                            }
                         }
                     }
                     2 => {
-                        let e = EventFd::new(libc::EFD_NONBLOCK).expect("eventfd");
+                        let (e, kind) = some_descriptor(rng, &mut held);
                         let _ = fe.set_vring_call(q, &e);
-                        trace.push(format!("SET_VRING_CALL({q})"));
+                        trace.push(format!("SET_VRING_CALL({q},{kind})"));
                     }
                     3 => {
-                        let e = EventFd::new(libc::EFD_NONBLOCK).expect("eventfd");
+                        let (e, kind) = some_descriptor(rng, &mut held);
                         let _ = fe.set_vring_err(q, &e);
-                        trace.push(format!("SET_VRING_ERR({q})"));
+                        trace.push(format!("SET_VRING_ERR({q},{kind})"));
                     }
                     4 => {
                         let old = cur_kick[q].take();
@@ -175,7 +204,7 @@ fn scenario(cfg: &Cfg, rng: &mut Rng, case: &str) {
     report::distinct_str(&format!("{nworkers}:{}", trace.join(",")));
     let leaked: Vec<String> = after.iter().filter(|(fd, v)| before.get(fd).map(|b| &b.0) != Some(&v.0)).map(|(fd, v)| format!("{fd}->{}", v.1)).collect();
     if !leaked.is_empty() {
-        let kinds: Vec<&str> = leaked.iter().map(|l| if l.contains("eventfd") { "eventfd" } else if l.contains("socket") { "socket" } else if l.contains("memfd") { "memfd" } else if l.contains("eventpoll") { "epoll" } else { "other" }).collect();
+        let kinds: Vec<&str> = leaked.iter().map(|l| if l.contains("eventfd") { "eventfd" } else if l.contains("socket") { "socket" } else if l.contains("memfd") { "memfd" } else if l.contains("eventpoll") { "epoll" } else if l.contains("pipe") { "pipe" } else { "other" }).collect();
         let mut k = kinds.clone();
         k.sort();
         k.dedup();
